@@ -282,6 +282,12 @@ JudgeCmp(e, S1) ==
                    /\ K[q].gt[i][j] = K[q].lt[j][i]
                    /\ IsT(K[q].le[i][j]) = ~IsT(K[q].lt[j][i])
                    /\ IsT(K[q].ge[i][j]) = ~IsT(K[q].lt[i][j]), "RELATIONAL_INCONSISTENT")
+        \* the same between vectors whose allocator TYPES differ (the twin of w holds the contents of w)
+        \cup (IF Len(c.vx) = 12
+              THEN Bad(IsT(c.vx[1]) = EqElems(av, bv) /\ IsT(c.vx[7]) = EqElems(av, bv)
+                       /\ IsT(c.vx[2]) = ~EqElems(av, bv) /\ IsT(c.vx[8]) = ~EqElems(av, bv), "VECTOR_EQUALITY")
+                   \cup Bad(c.vx = c.vv, "COMPARE_DEPENDS_ON_OPERAND_KIND")
+              ELSE {})
         \cup Bad(/\ c.vv[5] = c.vv[9] /\ c.vv[11] = c.vv[3]
                  /\ IsT(c.vv[4]) = ~IsT(c.vv[9]) /\ IsT(c.vv[10]) = ~IsT(c.vv[3])
                  /\ IsT(c.vv[6]) = ~IsT(c.vv[3]) /\ IsT(c.vv[12]) = ~IsT(c.vv[9]), "VECTOR_RELATIONAL_INCONSISTENT")
